@@ -54,7 +54,7 @@ const stopBound = 10 * time.Second // Muxer.Stop: graceful close + forced close 
 func isFIN(b []byte) bool { return len(b) >= 2 && b[1]&(1<<4) != 0 && b[1]&3 == 0 }
 
 // lossFilter implements the loss patterns on one direction.
-func lossFilter(p program, dir string, deadAfter *bool) tuberig.Filter {
+func lossFilter(p program, dir string, deadAfter *bool, clientFinDelivered *bool) tuberig.Filter {
 	finSeen := 0
 	return func(d string, n int, msg []byte) [][]byte {
 		switch p.Loss {
@@ -78,6 +78,9 @@ func lossFilter(p program, dir string, deadAfter *bool) tuberig.Filter {
 			if dir == "a" && *deadAfter {
 				return [][]byte{}
 			}
+			if dir == "a" && isFIN(msg) {
+				*clientFinDelivered = true
+			}
 		case "finack": // everything the server sends right after seeing the first FIN is lost once
 			if dir == "b" && *deadAfter {
 				*deadAfter = false
@@ -97,8 +100,9 @@ func scenario(arg string) *vx.Scenario {
 	return &vx.Scenario{Name: "shutdown:" + arg, Cfg: vrt.Config{MaxSteps: 400000, MaxTime: 10 * time.Minute, Settle: 20 * time.Second}, Run: func() {
 		m := tuberig.NewMuxers(0)
 		flag := false
-		m.CConn.SetFilter(lossFilter(p, "a", &flag))
-		m.SConn.SetFilter(lossFilter(p, "b", &flag))
+		clientFinDelivered := false
+		m.CConn.SetFilter(lossFilter(p, "a", &flag, &clientFinDelivered))
+		m.SConn.SetFilter(lossFilter(p, "b", &flag, &clientFinDelivered))
 		var ct, st tubes.Tube
 		var err error
 		if p.Unrel {
@@ -139,13 +143,14 @@ func scenario(arg string) *vx.Scenario {
 				s, oks := closeAsked["server"]
 				recoverable := p.Loss == "none" || p.Loss == "fin" || p.Loss == "finack"
 				if p.Loss == "lastack" && oks {
-					// the link dies towards the server once the server has sent its FIN: only the end
-					// that closed second (the passive closer, protected by its last-ack timer) is judged
-					other := c
-					if side == "client" {
-						other = s
-					}
-					recoverable = closeAsked[side].After(other)
+					// the link dies towards the server once the server has sent its FIN. The client
+					// still hears everything (its last-ack / closing timers bound its wait); the
+					// server can only finish if the client's FIN got through before the link died
+					// (then its last-ack or closing timer applies) - otherwise it sits in finWait1
+					// on a dead link, which is the dead-network case and not judged. Roles are read
+					// off the wire, not off the order of the Close calls: a Close issued by Stop
+					// may reach the tube long after the call.
+					recoverable = side == "client" || clientFinDelivered
 				}
 				if oks && recoverable {
 					from, ok = c, true
@@ -373,6 +378,11 @@ func main() {
 			fmt.Println("  ", l)
 		}
 		fmt.Println("stable:", stable, "virtual end:", res.EndTime)
+		for i, pt := range res.Points {
+			if pt.Chosen != 0 {
+				fmt.Printf("DEVIATION at point %d: kind=%d preempt=%v chose %d of %d: %s\n", i, pt.Kind, pt.Preempt, pt.Chosen, pt.N, pt.Label)
+			}
+		}
 		for _, p := range ps {
 			r.Violation("replayed:"+classify(p), p, c)
 		}
